@@ -176,7 +176,7 @@ PROPS = {
 }
 
 AEAD_RULE = ("AES-GCM{16,32}, AES-CTR-HMAC{aes 16,32}×{iv 12..16}×{SHA1..512}×{tag 10..digest}×{hmac key 16..130}, AES-GCM-SIV{16,32}, "
-             "ChaCha20-Poly1305, XChaCha20-Poly1305, XAES-256-GCM{salt 8..12}, KMS envelope AEAD; TINK/CRUNCHY/RAW; ids incl. 0 and 2^32-1; "
+             "ChaCha20-Poly1305, XChaCha20-Poly1305, XAES-256-GCM{salt 8..12}, KMS envelope AEAD, custom key-manager AEAD (legacy adapter); TINK/CRUNCHY/RAW (LEGACY for legacy-adapter keys); ids incl. 0 and 2^32-1; "
              "entry points aead.New(handle), per-key constructors, key managers and aead/subtle; rejected constructions (24-byte AES keys); pt/ad lengths on block boundaries up to 4 KiB "
              "(thorough: 256 KiB), ad nil/empty/non-empty; ")
 PROPS["C01"] = {
@@ -203,7 +203,13 @@ PROPS["C01"] = {
             "envelopeParse (Go's parse verdict observed at the stub), Encrypt rejections = the model's guard, Encrypt success ⇒ Decrypt success "
             "(oracle), the payload decrypts under the DEK the stub saw via `A dec` (RAW DEK AEAD), the DEK matches the template, the KEK sees "
             "empty ad, model-made envelopes (model-made payload, chosen wrapped length, model-wrapped DEK for real KEKs) decrypt in Go, the "
-            "other entry point decrypts the same envelope. AES-CTR-HMAC associated-data length block for sizes that cannot be run end to end: aesctrhmac.aadSizeInBits (hook VerifAADSizeInBits) and legacy aead/subtle.EncryptThenAuthenticate (recording MAC, identity cipher) on never-touched zero mappings of 0..2^32+1 bytes (2^29±1, 2^31, k·2^29, random) against `A aadbits n` = the closing block of EtM.macInput; non-trivial = every op line, distinct by line hash",
+            "other entry point decrypts the same envelope. Keyset prefix matrix (adapter.go): legacy key-manager primitives behind "
+            "fullAEADPrimitiveAdapter — a stub registry.KeyManager AEAD (own type URL, subtle AES-GCM) and KmsEnvelopeAeadKey keys, prefix "
+            "TINK/CRUNCHY/LEGACY/RAW each — and the full primitives of every key type × variant, as the producing key of 12 keyset shapes "
+            "(single; first/last of 2 and 4; the only ENABLED key among DISABLED neighbours; mixed; primary or not): ciphertext = cryptofmt "
+            "output prefix ‖ raw ciphertext byte-identical to the model's (`!A enc … T|C|L|R id`), KMS: prefix ‖ envelope (`!A envparse`, "
+            "`!A dec` over the DEK's AEAD with the key's prefix), round trip through the keyset and a single-key keyset, model-made ciphertexts "
+            "decrypt. AES-CTR-HMAC associated-data length block for sizes that cannot be run end to end: aesctrhmac.aadSizeInBits (hook VerifAADSizeInBits) and legacy aead/subtle.EncryptThenAuthenticate (recording MAC, identity cipher) on never-touched zero mappings of 0..2^32+1 bytes (2^29±1, 2^31, k·2^29, random) against `A aadbits n` = the closing block of EtM.macInput; non-trivial = every op line, distinct by line hash",
     "trusted_base": [KERNEL, TIE, PRIMS, "the raw-AEAD law (RawLaw) of stdlib AES-GCM / ChaCha20-Poly1305 is a hypothesis of the framing "
                      "theorems and is what the correspondence with the reference implementation exercises"],
     "assumptions": ["AES/SHA/ChaCha/GHASH/POLYVAL are reference primitives (KAT + agreement with Go), not proved",
@@ -235,7 +241,16 @@ PROPS["C02"] = {
             "(both entry points) and flips over multi-RAW-key keysets. KMS envelope (all entry points, DEK types, stub lengths / real KEKs as in "
             "C01): flips and cuts in the length field, the encrypted DEK and the payload, length ±1, 0, to-the-end, past-the-end, 2^31.., 2^32-1, "
             "4096/4097 with enough bytes behind, extension, short strings, another envelope's encrypted DEK, 5 associated-data mutations; the "
-            "stub must fail or Go must reject; model verdicts by `A envparse` (+ `A dec` under the DEK the stub returned). AES-CTR-HMAC associated-data length block for sizes that cannot be run end to end: aesctrhmac.aadSizeInBits (hook VerifAADSizeInBits) and legacy aead/subtle.EncryptThenAuthenticate (recording MAC, identity cipher) on never-touched zero mappings of 0..2^32+1 bytes (2^29±1, 2^31, k·2^29, random) against `A aadbits n` = the closing block of EtM.macInput; "
+            "stub must fail or Go must reject; model verdicts by `A envparse` (+ `A dec` under the DEK the stub returned). Keyset prefix "
+            "matrix (adapter.go; keys and shapes as in C01: stub key-manager AEAD and KMS envelope keys behind fullAEADPrimitiveAdapter × "
+            "T/C/L/R, full primitives of every type × variant; keysets of 1 and 2..4 keys, producing key first / last / only ENABLED one "
+            "among DISABLED neighbours / primary or not), after a successful Decrypt on the same primitive object: every single-bit flip of "
+            "the 5 prefix bytes, start bytes 0,1,2,0x80,0xff, every other member's id (both start bytes) and foreign ids, prefix stripped / "
+            "doubled / zeroed / ones / 4 and 6 bytes / reversed, prefixed-of-RAW, inputs of 0..5 bytes (nil, cap == len, re-slices, random, "
+            "members' prefixes), cuts, extension, flips in every field, 4 random mutations, 4 associated-data changes; released plaintext, "
+            "a panic or a modified input buffer is an oracle violation; model verdict by `A dec` with the model's own prefix handling "
+            "(stub/full: whole input; KMS: prefix ‖ payload over the DEK's AEAD when the envelope header is untouched, else Go oracle only). "
+            "AES-CTR-HMAC associated-data length block for sizes that cannot be run end to end: aesctrhmac.aadSizeInBits (hook VerifAADSizeInBits) and legacy aead/subtle.EncryptThenAuthenticate (recording MAC, identity cipher) on never-touched zero mappings of 0..2^32+1 bytes (2^29±1, 2^31, k·2^29, random) against `A aadbits n` = the closing block of EtM.macInput; "
             "non-trivial = every op line, distinct by line hash",
     "trusted_base": [KERNEL, TIE, PRIMS],
     "assumptions": ["H_mac: beyond the exact characterisation (plaintext is released iff the recomputed tag equals the transmitted tag), "
